@@ -969,6 +969,39 @@ func checkC13(p *Program, r *Report) {
 				"values and types are read in different critical sections: the copy/listing is not a consistent snapshot")
 		}
 	}
+	// R8: host code is not called while a scope's lock is held. The external lookup is the host's; one that reads the scope it
+	// is attached to (alias resolution, memoising) takes the read lock again, and with a writer queued between the two
+	// acquisitions the operation, the writer and the lookup block for ever.
+	nHost := 0
+	for _, fn := range fns {
+		var before map[ssa.Instruction]lockState
+		for _, b := range fn.Blocks {
+			for _, in := range b.Instrs {
+				c, ok := in.(*ssa.Call)
+				if !ok || !c.Call.IsInvoke() {
+					continue
+				}
+				x, f, ok := fieldLoad(c.Call.Value)
+				if !ok || f != m.extI || !m.isEnvPtr(x.Type()) {
+					continue
+				}
+				if before == nil {
+					before = m.lockset(fn, NewReport("C13", r.Tier), "-")
+				}
+				nHost++
+				held := ""
+				for base, li := range before[in] {
+					if li.mode != lkUnlocked {
+						held = describeVal(base)
+					}
+				}
+				r.Check(held == "", "C13.R8", fmt.Sprintf("%s|external lookup %s called with no scope lock held", funcName(fn), c.Call.Method.Name()), p.Pos(c.Pos()),
+					"no lock of a scope is held at the call",
+					"the host's external lookup is called while the lock of "+held+" is held: a lookup that reads that scope takes the read lock again, and a writer queued in between blocks it, itself and this operation for ever")
+			}
+		}
+	}
+	r.Floor("C13.R8", nHost, 3)
 	r.Floor("C13.R1", nAcc, 30)
 	r.Floor("C13.R2", nFuncs, 12)
 	r.Note("functions_with_guarded_access", funcsWithAccess)
